@@ -336,7 +336,7 @@ Definition writes_elsewhere : list (string * write) := [
   ("nextLine", mkW "scanner" Whole "nil" false);
   ("nextLine", mkW "lineNum" Whole "num(p.lineNum.num() + 1)" false);
   ("nextLine", mkW "fileLineNum" Whole "num(p.fileLineNum.num() + 1)" false);
-  ("parseFmtTypes", mkW "formatCache" Elem "cachedFormat{format, types}" false);
+  ("parseFmtTypes", mkW "formatCache" Elem "cachedFormat{format, types, stars}" false);
   ("peekPeekPop", mkW "sp" Whole "--" false);
   ("peekPop", mkW "sp" Whole "--" false);
   ("pop", mkW "sp" Whole "--" false);
@@ -431,5 +431,5 @@ Definition field_methods : list (string * string * string) := [
   ("splitOnFieldSepRegex", "savedFieldSepRegex", "FindAllStringIndex");
   ("writeCSV", "csvOutput", "Reset")
 ].
-Definition run_functions : list string := ["array"; "arrayGet"; "arrayIndex"; "augAssignOp"; "boolean"; "callBuiltin"; "callNative"; "checkContext"; "checkContextNow"; "closeAll"; "compileRegex"; "ensureFields"; "execActions"; "execShell"; "execute"; "executeAll"; "floatToInt"; "flushAll"; "flushOutputAndError"; "flushStream"; "flushWriter"; "fromNative"; "getField"; "getFieldByName"; "getInputScannerFile"; "getInputScannerPipe"; "getOutputStream"; "getSpecial"; "getline"; "inputModeString"; "joinFields"; "lenNewline"; "localArray"; "newError"; "newInCmdStream"; "newInFileStream"; "newOutCmdStream"; "newOutFileStream"; "newOutNullStream"; "newScanner"; "nextLine"; "null"; "num"; "numStr"; "outputModeString"; "parseFmtTypes"; "parseInputMode"; "parseOutputMode"; "peekPeekPop"; "peekPop"; "peekSlice"; "peekTop"; "peekTwo"; "pop"; "popSlice"; "popTwo"; "printArgs"; "printErrorf"; "printLine"; "push"; "pushNulls"; "replaceTop"; "replaceTwo"; "setField"; "setFieldNames"; "setFile"; "setLine"; "setSpecial"; "setVarByName"; "split"; "splitBlanks"; "splitOnFieldSepRegex"; "sprintf"; "str"; "sub"; "substrChars"; "substrLengthChars"; "toNative"; "toString"; "toUint64"; "validCSVSeparator"; "validateCSVInputConfig"; "validateCSVOutputConfig"; "waitExitCode"; "writeCSV"; "writeOutput"].
+Definition run_functions : list string := ["array"; "arrayGet"; "arrayIndex"; "augAssignOp"; "boolean"; "callBuiltin"; "callNative"; "checkContext"; "checkContextNow"; "childWriter"; "closeAll"; "compileRegex"; "ensureFields"; "execActions"; "execShell"; "execute"; "executeAll"; "floatToInt"; "flushAll"; "flushOutputAndError"; "flushStream"; "flushWriter"; "fromNative"; "getField"; "getFieldByName"; "getInputScannerFile"; "getInputScannerPipe"; "getOutputStream"; "getSpecial"; "getline"; "inputModeString"; "isDigit"; "joinFields"; "lenNewline"; "localArray"; "newError"; "newInCmdStream"; "newInFileStream"; "newOutCmdStream"; "newOutFileStream"; "newOutNullStream"; "newScanner"; "nextLine"; "null"; "num"; "numStr"; "outputModeString"; "parseFmtTypes"; "parseInputMode"; "parseOutputMode"; "peekPeekPop"; "peekPop"; "peekSlice"; "peekTop"; "peekTwo"; "pop"; "popSlice"; "popTwo"; "printArgs"; "printErrorf"; "printLine"; "push"; "pushNulls"; "replaceTop"; "replaceTwo"; "setField"; "setFieldNames"; "setFile"; "setLine"; "setSpecial"; "setVarByName"; "split"; "splitBlanks"; "splitOnFieldSepRegex"; "sprintf"; "str"; "sub"; "substrChars"; "substrLengthChars"; "toNative"; "toString"; "toUint64"; "validCSVSeparator"; "validateCSVInputConfig"; "validateCSVOutputConfig"; "waitExitCode"; "writeCSV"; "writeOutput"].
 Definition setExecuteConfig_functions : list string := ["array"; "arrayIndex"; "checkNativeFunc"; "ensureFields"; "initNativeFuncs"; "joinFields"; "lenNewline"; "newError"; "num"; "numStr"; "parseInputMode"; "parseOutputMode"; "setArrayValue"; "setExecuteConfig"; "setSpecial"; "setVarByName"; "splitBlanks"; "splitOnFieldSepRegex"; "str"; "toString"; "validCSVSeparator"; "validNativeType"; "validateCSVInputConfig"; "validateCSVOutputConfig"; "writeCSV"; "writeOutput"].
